@@ -10,8 +10,13 @@ pub enum ExpandError {
     Missing(String),
     Unclosed(usize),
     Cycle(String),
+    TooDeep(String),
     Expr(EvalexprError),
 }
+
+/// Variables referring to variables are expanded recursively, on the call stack: a chain
+/// of thousands of them would overflow it. Nobody nests that deep on purpose.
+const MAX_DEPTH: usize = 100;
 
 #[derive(Debug, Copy, Clone)]
 pub enum IfMissing {
@@ -28,6 +33,11 @@ impl fmt::Display for ExpandError {
         match self {
             ExpandError::Missing(s) => write!(f, "missing variable \"{}\"", s),
             ExpandError::Cycle(s) => write!(f, "cycle involving variable \"{}\"", s),
+            ExpandError::TooDeep(s) => write!(
+                f,
+                "variables nested more than {} levels deep at variable \"{}\"",
+                MAX_DEPTH, s
+            ),
             ExpandError::Unclosed(start) => write!(f, "unclosed brace at pos {}", start),
             ExpandError::Expr(e) => write!(f, "expression error: {}", e),
         }
@@ -137,6 +147,9 @@ where
         result.push_str(&f[cursor..start]);
         if seen.contains(&key) {
             return Err(ExpandError::Cycle(key.into()));
+        }
+        if seen.len() >= MAX_DEPTH {
+            return Err(ExpandError::TooDeep(key.into()));
         }
         seen.push(key_);
 
